@@ -191,9 +191,8 @@ def task_packer(I, mode):
     I.summaries['segno.encoder:data_to_bytes'] = s_data_to_bytes
     loops = __import__('pyvc.extract', fromlist=['loops_of']).loops_of(f.node)
     order = ('numeric', 'alphanumeric', 'byte', 'hanzi', 'kanji')      # source order of the packing loops
-    I.ground('C01.make_segment.has_five_packing_loops', len(loops) == 5, witness=len(loops))
     if len(loops) != 5:
-        return
+        raise Unsupported('loop contracts do not attach: make_segment has %d loops, the contract is written for the five packing loops' % len(loops))
 
     def make_inv(m):
         def inv(ctx):
